@@ -311,7 +311,7 @@ var c07ShadowFilters = []string{
 	`m["x"].Filter(isErr)`, `m["x"].Filter(isSmall)`,
 }
 
-func runC07(c *Ctx) error {
+func runC07Cells(c *Ctx) error {
 	res := c.Res
 	res.Rule = "product space: every capture shape (expression, two expressions, $* expression list, statement, statement list, typed-nil *ast.FieldList, type expression, " +
 		"parameter name, field list, assignment sides, composite elements, selector base, call function, declaration list; comment-rule captures: MatchComment named groups that matched text, matched the empty string, " +
@@ -585,5 +585,30 @@ func runC07(c *Ctx) error {
 	}
 	res.Distribution["cells"] = len(cells)
 	res.Distribution["contexts-per-cell"] = len(ctxs)
+	return nil
+}
+
+// runC07 = the product space above + the suites of c07_top.go (the top of the file: patterns matched against the
+// *ast.File, top-level declarations, the shallowest nodes) and c07_state.go (caller-provided RunnerState x list patterns
+// and $* captures under Contains() filters whose sub-patterns need node slices).  VERIF_C07_ONLY=cells|top|state runs
+// one of them (debugging aid; the check never sets it).
+func runC07(c *Ctx) error {
+	only := os.Getenv("VERIF_C07_ONLY")
+	if only == "" || only == "cells" {
+		if err := runC07Cells(c); err != nil {
+			return err
+		}
+	}
+	c.Res.Rule += c07ExtraRule
+	if only == "" || only == "top" {
+		if err := runC07Top(c); err != nil {
+			return fmt.Errorf("top suite: %v", err)
+		}
+	}
+	if only == "" || only == "state" {
+		if err := runC07State(c); err != nil {
+			return fmt.Errorf("state suite: %v", err)
+		}
+	}
 	return nil
 }
